@@ -531,6 +531,18 @@ fn layout_attrs(items: Vec<String>, layout: Layout, indent: &str, syntax: &[Stri
 
 /// Render the enum definition. `derives` are full paths (`strum::EnumString`, `Debug`, ..).
 pub fn render_enum(spec: &EnumSpec, derives: &[&str]) -> String {
+    if spec.syntax.iter().any(|x| x == "iter-ext-trait") {
+        // declaration context: a blanket extension trait gives EVERY iterator a by-`&mut self` method called `get`
+        // (generated code that calls `self.get(i)` on its iterator instead of `Self::get(self, i)` picks this one up)
+        let mut inner = spec.clone();
+        inner.syntax.retain(|x| x != "iter-ext-trait");
+        let body = render_enum(&inner, derives);
+        return format!(
+            "pub mod scoped_{n} {{\n    #![allow(unused_imports, dead_code)]\n    use super::*;\n    pub trait VfGetExt: ::core::iter::Iterator {{ fn get(&mut self, _i: usize) -> ::core::option::Option<Self::Item> {{ ::core::option::Option::None }} }}\n    impl<I: ::core::iter::Iterator> VfGetExt for I {{}}\n{body}}}\npub use scoped_{n}::*;\n",
+            n = spec.name.to_lowercase(),
+            body = body
+        );
+    }
     if spec.syntax.iter().any(|x| x == "result-alias") {
         // declaration context: the enum lives in a module that has the customary `type Result<T> = ..` alias in scope
         // (generated code that says `Result<A, B>` instead of `::core::result::Result<A, B>` stops compiling there)
